@@ -229,7 +229,10 @@ func drawScalar(t *rapid.T, fd protoreflect.FieldDescriptor, o MsgOpts) model.Va
 		return model.Val{}
 	case protoreflect.EnumKind:
 		ed := fd.Enum()
-		if ed.IsClosed() || rapid.IntRange(0, 2).Draw(t, "declared?") > 0 {
+		// google.protobuf.NullValue: protojson writes null for every number, so an undeclared number has
+		// no JSON form; generators restricted to JSON-representable content (SkipField set) keep to 0
+		jsonSafeNull := o.SkipField != nil && ed.FullName() == "google.protobuf.NullValue"
+		if ed.IsClosed() || jsonSafeNull || rapid.IntRange(0, 2).Draw(t, "declared?") > 0 {
 			vals := ed.Values()
 			return model.Val{U: uint64(int64(vals.Get(rapid.IntRange(0, vals.Len()-1).Draw(t, "enumidx")).Number()))}
 		}
